@@ -127,7 +127,7 @@ impl Property for C10 {
     ]
   }
   fn plan(tier: Tier) -> Plan {
-    Plan { workers: 16, cases_per_worker: tier.pick(300, 6000) }
+    Plan { workers: 16, cases_per_worker: tier.pick(1000, 30000) }
   }
   fn shrink_iters() -> u32 {
     800
